@@ -35,6 +35,7 @@ structure Sim where
   dRec : List (Nat × Nat) := []                -- measurements on SDK-direct instruments (script id, v), newest first
   dDead : List Nat := []                       -- SDK-direct registrations that were unregistered
   tracers : List (Nat × Nat) := []             -- script tracer → instrument of `ts`
+  spanInfo : List (Nat × Bool × Option Nat) := []  -- span → (reached the SDK, span context it hands on = nearest real ancestor-or-self's parent link)
   props : List (Nat × Nat) := []
   active : Bool := false                       -- a gated installer is between start and finish
   onTracer : Bool := false
@@ -250,18 +251,27 @@ def applyOp (x : Sim) : Op → Sim
     | some (.direct, _) => { x with dRec := (i, v) :: x.dRec }.tag "addSdk"
     | some (.ph j, _) =>
       let tid := x.nextTid
-      match step false x.ms tid (.addLoad j v) with
+      match step false x.ms tid (.addLoad j v 0) with
       | none => { x with bad := true }
       | some s1 =>
         match step false s1 tid .addFwd with
         | none => { x with bad := true }
         | some s2 => { x with ms := s2, nextTid := tid + 1 }.tag (if x.ms.iDel j then "addForwarded" else "addDropped")
-  | .S t id =>
-    match lookup x.tracers t with
-    | none => { x with bad := true }
-    | some j =>
+  | .TS t j => if (lookup x.spanInfo j).isSome then launch x (.T t) else { x with bad := true }
+  | .S t id par =>
+    let ctxTag := match par with | some p => p + 1 | none => 0
+    -- what the SDK will see as the parent: the parent itself if it is a real span, else what the placeholder inherited
+    let eff : Option (Option Nat) := match par with
+      | none => some none
+      | some p => (lookup x.spanInfo p).map fun (real, inh) => if real then some p else inh
+    match lookup x.tracers t, eff with
+    | none, _ => { x with bad := true }
+    | _, none => { x with bad := true }
+    | some j, some eff =>
+      let x := { x with spanInfo := (id, x.ts.iDel j, eff) :: x.spanInfo }
+      let x := if par.isSome then x.tag (if x.ts.iDel j then "spanChildForwarded" else "spanChildNonRecording") else x
       let tid := x.nextTid
-      match step false x.ts tid (.addLoad j id) with
+      match step false x.ts tid (.addLoad j id ctxTag) with
       | none => { x with bad := true }
       | some s1 =>
         match step false s1 tid .addFwd with
